@@ -83,6 +83,17 @@ var witnesses = []witness{
 	{"query", "n", "test.schema.v1.FullSchema", "date=2020-13-01"},
 	{"query", "n", "test.schema.v1.FullSchema", ""},
 	{"query", "n", "g0.v1.All", "mString=a"},
+	// seeded C06-m7: index-like / empty segments in a dotted key (all rejected: a dotted path only enters objects and oneofs)
+	{"query", "n", "test.schema.v1.FullSchema", "rBars.0.barId=a"},
+	{"query", "n", "test.schema.v1.FullSchema", "rBars.-1.barId=a"},
+	{"query", "n", "test.schema.v1.FullSchema", "wrappedOneofs.-1.wOneofString=a"},
+	{"query", "n", "test.schema.v1.FullSchema", "rBars.0=a"},
+	{"query", "n", "test.schema.v1.FullSchema", "rBars..barId=a"},
+	{"query", "n", "test.schema.v1.FullSchema", "rBars.0.=a"},
+	{"query", "n", "test.schema.v1.FullSchema", "rBars.1000000.barId=a"},
+	{"query", "n", "test.schema.v1.FullSchema", "rBars.1.barId=a;rBars.0.barField=b"},
+	{"query", "n", "test.schema.v1.FullSchema", "mapStringString.0=a"},
+	{"query", "n", "test.schema.v1.FullSchema", "sBar.0.barId=a"},
 	{"enc", "n", "test.schema.v1.FullSchema", `(msg (49 (date 33 1 2)))`},
 	{"enc", "n", "test.schema.v1.FullSchema", `(msg (4 (f32 7fc00000 4e614e)))`},
 	{"enc", "n", "test.schema.v1.FullSchema", `(msg (4 (f32 7f800000 2b496e66)) (5 (f32 ff800000 2d496e66)))`},
@@ -126,6 +137,10 @@ var stressWitnesses = func() []witness {
 	ws = append(ws, witness{"squery", "n", "g0.v1.All", "sDec=1E10000000"})
 	ws = append(ws, witness{"squery", "n", "g0.v1.All", "sDec=1e-10000000"})
 	ws = append(ws, witness{"squery", "n", "test.schema.v1.FullSchema", "decimal=1E-3000000"})
+	// seeded C06-m7: an index segment nobody can allocate (a decoder that grows the array to the index never returns)
+	ws = append(ws, witness{"squery", "n", "test.schema.v1.FullSchema", "rBars.2000000000.barId=a"})
+	ws = append(ws, witness{"squery", "n", "test.schema.v1.FullSchema", "wrappedOneofs.4294967296.wOneofString=a"})
+	ws = append(ws, witness{"squery", "n", "g1.v1.Tree", "children.9223372036854775807.value=a"})
 	dec("g0.v1.All", `{"sDec":1e2147483647}`)
 	dec("g0.v1.All", `{"sDec":"1E2147483647"}`)
 	return ws
